@@ -60,6 +60,19 @@ func (p *Prog) LookaheadAccesses(fn *ssa.Function) []IndexOb {
 					out = append(out, ob)
 				}
 			}
+			// x[c : len(x)-d] also needs c <= len(x)-d
+			if x.Low != nil && x.High != nil {
+				if cLo, isC := constInt(x.Low); isC && cLo >= 1 {
+					if shape, _, d, ok := classify(x.X, x.High); ok && shape == "len-c" {
+						ob := IndexOb{Instr: in, Shape: "slice-lo<=hi", Desc: Expr(x.X) + "[" + fmt.Sprint(cLo) + ":len-" + fmt.Sprint(d) + "]", Facts: FactsAt(in)}
+						ob.Ok, ob.Why = lc.lenAtLeast(in, x.X, cLo+d)
+						if !ob.Ok {
+							ob.Why = fmt.Sprintf("no dominating fact gives len(%s) >= %d, so the low bound can exceed the high bound", Expr(x.X), cLo+d)
+						}
+						out = append(out, ob)
+					}
+				}
+			}
 		}
 	})
 	return out
